@@ -492,13 +492,50 @@ func (c *Ctx) c08Cap(pm *pairModel) {
 	nFile := 0
 	for _, fn := range pkgFuncs(p, "pkg/storage/file") {
 		for _, b := range fn.Blocks {
-			rel, ok := eng.EdgeRel(b, 0)
-			if !ok {
-				continue
+			isCapRel := func(rl eng.Rel) bool {
+				lx := eng.LenOf(rl.X)
+				return lx != nil && eng.SameField(eng.LoadedField(lx), pm.fileMsgs) && eng.SameField(eng.LoadedField(eng.StripConv(rl.Y)), fFileCap)
 			}
-			lx := eng.LenOf(rel.X)
-			if lx == nil || !eng.SameField(eng.LoadedField(lx), pm.fileMsgs) || !eng.SameField(eng.LoadedField(eng.StripConv(rel.Y)), fFileCap) {
-				continue
+			rel, ok := eng.EdgeRel(b, 0)
+			if !ok || !isCapRel(rel) {
+				// the loop condition may be a predicate of the package (for mb.atMessageCap() {…}):
+				// the comparison is then the one its result is built from
+				ok = false
+				if v, pol, okT := eng.CondTruth(b, 0); okT && pol && len(loopHeaders(b)) > 0 {
+					if hc, isCall := v.(*ssa.Call); isCall {
+						if g := eng.StaticCallee(hc.Common()); g != nil && eng.FuncPkgPath(g) == eng.FuncPkgPath(fn) && len(g.Blocks) > 0 {
+							eng.EachInstr(g, func(gi ssa.Instruction) {
+								bo, isB := gi.(*ssa.BinOp)
+								if !isB {
+									return
+								}
+								if rl, okR := eng.CondRel(bo); okR && isCapRel(rl) {
+									// it must feed the predicate's result
+									feeds := false
+									for _, ret := range successReturns(g) {
+										rv := eng.ReturnResults(ret)[0]
+										if rv == ssa.Value(bo) {
+											feeds = true
+										}
+										if ph, isPhi := rv.(*ssa.Phi); isPhi {
+											for _, e := range ph.Edges {
+												if e == ssa.Value(bo) {
+													feeds = true
+												}
+											}
+										}
+									}
+									if feeds {
+										rel, ok = rl, true
+									}
+								}
+							})
+						}
+					}
+				}
+				if !ok {
+					continue
+				}
 			}
 			nFile++
 			cons := "file:" + shortFn(fn)
@@ -506,9 +543,27 @@ func (c *Ctx) c08Cap(pm *pairModel) {
 			// body removes messages[0]
 			var rmCall *ssa.Call
 			eng.BlockReaches(b.Succs[0], func(in ssa.Instruction) bool {
-				if call, ok := in.(*ssa.Call); ok && eng.StaticCallee(call.Common()) == rmMsg {
+				call, ok := in.(*ssa.Call)
+				if !ok {
+					return false
+				}
+				g := eng.StaticCallee(call.Common())
+				if g == rmMsg {
 					rmCall = call
 					return true
+				}
+				// a helper of the package that removes one message (mb.evictOldest())
+				if g != nil && eng.FuncPkgPath(g) == eng.FuncPkgPath(fn) && len(g.Blocks) > 0 && g != fn {
+					var inner []*ssa.Call
+					eng.EachInstr(g, func(gi ssa.Instruction) {
+						if c2, ok := gi.(*ssa.Call); ok && eng.StaticCallee(c2.Common()) == rmMsg {
+							inner = append(inner, c2)
+						}
+					})
+					if len(inner) == 1 && len(loopHeaders(inner[0].Block())) == 0 {
+						rmCall = inner[0]
+						return true
+					}
 				}
 				return false
 			}, func(in ssa.Instruction) bool { return in == ssa.Instruction(eng.IfOf(b)) })
